@@ -416,6 +416,9 @@ class RTCRtpReceiver:
             await self.__rtcp_started.wait()
             self.__rtcp_task.cancel()
             await self.__rtcp_exited.wait()
+        elif self._track is not None:
+            # the decoder thread was never started, end the track ourselves
+            self._track._queue.put_nowait(None)
 
     def _handle_disconnect(self) -> None:
         self.__stop_decoder()
